@@ -17,7 +17,8 @@ META = {
                  "z3 refutes 'coefficient of eps^k of the step != coefficient of the exact flow' for k = 0, 1, 2",
     "explanation": "bounded SMT check: start state and polynomial model coefficients symbolic; eps a formal variable",
     "bounds": {"quick": {"dim": 1, "series_order": 3}, "thorough": {"dim": "1-2", "series_order": 3}},
-    "outside": "constrained integrator (its Newton projection needs Laurent series in eps), implicit integrators on dense / SoftAbs "
+    "outside": "constrained integrator beyond the circle cases (Newton / line-search projection with the shifted series division; the "
+               "integrator's internal reverse check is cut there; the quasi-Newton solver needs a Puiseux series), implicit integrators on dense / SoftAbs "
                "position-dependent metrics (the log-determinant energy term is not decided), dim > 2, non-polynomial targets, "
                "global error accumulation (a textbook consequence of local order + stability)",
     "stubs": ["LAPACK stubs", "LOG/SIN/COS/SQRT uninterpreted with Taylor rules in the series domain"],
